@@ -63,7 +63,7 @@ impl Prop for C09 {
          each reference in one of the three length forms with the length in that form's range, 1<=disp<=4096, disp<=produced, exact termination, nothing left over); \
          reference expansion, LZ13CompressionFormat::decompress and CompressionFormat::LZ13.decompress return the input. Bytes 1..4 of the wrapper are unconstrained. \
          Every input incl. empty: Ok or Err, no panic (checked build) and no abort (worker process isolation), both builds. \
-         Non-trivial: token list has a back-reference, or input shorter than 3 bytes. Distinct = distinct case value."
+         One case in four is preceded on the same thread by decompress() of a foreign literal-only, zero-padded stream of the same bytes, and the repository-file cases by compress() of a 16 MiB input (outside the domain; outcomes ignored): the oracle is unchanged. Non-trivial: token list has a back-reference, or input shorter than 3 bytes. Distinct = distinct case value."
             .into()
     }
     fn assumptions() -> Vec<String> {
@@ -102,6 +102,19 @@ impl Prop for C09 {
 
     fn run(case: &LzInput, cx: &mut Cx) {
         let input = case.bytes();
+        // prior history on this thread (outcomes ignored): one case in four decompresses a foreign stream of the same bytes first; the repository-file
+        // cases first hand the compressor an input of exactly 16 MiB (outside the statement's domain: it may fail, and must not leave anything behind)
+        let h = crate::engine::prop::fnv(&input);
+        if h % 4 == 0 && input.len() <= 200_000 && !input.is_empty() {
+            let foreign = super::prior::foreign_stream(&input, true);
+            super::prior::quiet(|| LZ13CompressionFormat.decompress(&foreign).is_ok());
+            cx.label("after-decompressing-a-foreign-stream-of-the-same-bytes");
+        }
+        if matches!(case, LzInput::File(name) if name.contains("LZ1")) {
+            let big = vec![0x5Au8; 1 << 24];
+            super::prior::quiet(|| LZ13CompressionFormat.compress(&big).is_ok());
+            cx.label("after-compressing-an-input-of-16MiB");
+        }
         let res = match cx.call(|| LZ13CompressionFormat.compress(&input)) {
             Some(r) => r,
             None => return,
